@@ -55,3 +55,19 @@ Theorem c16_cookie_domain : forall cfg host name value exp,
   sc_domain (make_cookie cfg host name value exp) = select_domain host (c_domains cfg).
 Proof. reflexivity. Qed.
 Print Assumptions c16_cookie_domain.
+
+(* ---- over the composition of Model/Compose.v (bypass rules + stored credential + handlers): with
+   reverse-proxy mode off - the request is not marked proxied and the trusted-IP decision reads the
+   peer address - two requests that differ only in what forwarding headers carry (the forwarded URI,
+   the client-IP header) get the same answer and the same clearing decision. *)
+From V.Model Require Import Signed Cookies CookieStore Compose.
+From V.Proofs Require Import ComposeProofs.
+
+Theorem c16_serve_request_ignores_forwarding :
+  forall mac matches parse_uri_path parse_ip decode_session ep d r r',
+  d_use_header d = false -> same_but_forwarding (r_b r) (r_b r') ->
+  r_cookies r = r_cookies r' -> r_now r = r_now r' -> r_bearer r = r_bearer r' -> r_basic r = r_basic r' -> r_p r = r_p r' ->
+  serve_request mac matches parse_uri_path parse_ip decode_session ep d r =
+  serve_request mac matches parse_uri_path parse_ip decode_session ep d r'.
+Proof. exact serve_request_ignores_forwarding. Qed.
+Print Assumptions c16_serve_request_ignores_forwarding.
